@@ -31,7 +31,7 @@ REQUIRED_CLASSES = ["op:transfer", "op:distribute", "op:add", "op:remove", "op:a
 
 
 @st.composite
-def _case(draw, focus):
+def _case(draw, focus, tier="quick"):
     n = draw(st.integers(1, 3))
     names = ["Alpha", "Beta plate", "Gamma_3"]
     labs = []
@@ -49,11 +49,11 @@ def _case(draw, focus):
     direct = op_direct(vs, max_n=4)
     anyop = st.one_of(t, d, direct, direct)
     fop = {"transfer": t, "distribute": d, "direct": direct, "mixed": anyop}[focus]
-    return {"labs": labs, "device": draw(st.sampled_from(["evo", "fluent"])), "M": M, "auto_split": draw(st.sampled_from([True, True, False])), "ops": draw(st.lists(st.one_of(fop, anyop), min_size=1, max_size=14))}
+    return {"labs": labs, "device": draw(st.sampled_from(["evo", "fluent"])), "M": M, "auto_split": draw(st.sampled_from([True, True, False])), "ops": draw(st.lists(st.one_of(fop, anyop), min_size=1, max_size=14 if tier == "quick" else 25))}
 
 
 def strategy(tier, stratum):
-    return _case(stratum)
+    return _case(stratum, tier)
 
 
 def _absent(label):
